@@ -523,6 +523,42 @@ func propC10(c *Ctx) {
 
 	c.Rule("C10.R6", func() { layoutRule(c, "C10.R6", []string{"L2Denom"}) })
 
+	// the per-bridge sequence survives an export: the exported counter of every bridge is what
+	// the getter answers - the stored value, or the default 1 for a bridge that has had no
+	// deposit (a raw store read or a table of the stored entries answers 0 for such a bridge and
+	// the re-imported chain numbers its first deposit 0)
+	c.Rule("C10.R7", func() {
+		exp := c.Method(hostKeeper, "Keeper", "ExportGenesis")
+		o := c.Ob("C10.R7", "ophost ExportGenesis: every Bridge record carries next_l1_sequence = the stored counter of that bridge or the default 1")
+		for _, p := range c.Paths(exp, PO{Params: []string{"k", "ctx"}, Callbacks: true, Depth: 9}) {
+			o.Paths++
+			if p.Panic || len(p.RetVal) != 1 {
+				continue
+			}
+			elems, ok := listOf(fieldsSet(p.RetVal[0])["Bridges"])
+			if !ok {
+				continue
+			}
+			for _, e := range elems {
+				bs := fieldsSet(e)
+				o.Sites++
+				id := ""
+				if v := bs["BridgeId"]; v != nil {
+					id = v.Key()
+				}
+				v := bs["NextL1Sequence"]
+				if v == nil {
+					o.Fail(c.W.Pos(exp.Pos()), "exported Bridge record leaves NextL1Sequence unset (0)", c.Dump(p, -1))
+				} else if v.Key() != "1" && !strings.Contains(v.Key(), "Get(k.NextL1Sequences, ctx, "+id+")") {
+					o.Fail(c.W.Pos(exp.Pos()), "Bridge.NextL1Sequence is "+trunc(v.Key(), 120)+", want the getter's value for "+id, c.Dump(p, -1))
+				}
+			}
+		}
+		if o.Sites == 0 {
+			o.Fail(c.W.Pos(exp.Pos()), "no exported Bridge record found (floor 1)", nil)
+		}
+	})
+
 	c.Rule("C10.R1", func() {
 		hs := c.Handlers("ophost")
 		for _, hn := range sortedKeys(hs) {
@@ -839,74 +875,8 @@ func propC11(c *Ctx) {
 		}
 	})
 
-	c.Rule("C11.R2", func() {
-		fn := hostHandler(c, "DeleteOutput")
-		o := c.Ob("C11.R2", "DeleteOutput: guard index < next; deletes the contiguous suffix from req.OutputIndex; rolls the counter back to req.OutputIndex")
-		nOK := 0
-		nextOf := func(p *Path) *Term {
-			for _, i := range p.Find(func(ev *Event) bool { return ev.Kind == EvExit && isCall2(ev, "Keeper).GetNextOutputIndex") }) {
-				if r := p.Events[i].Res; r.Op == "tuple" {
-					return r.Args[0]
-				}
-			}
-			return nil
-		}
-		for _, p := range c.Paths(fn, PO{Params: hParams, NoInline: []string{".Validate"}, Visits: 4}) {
-			o.Paths++
-			o.Facts += p.NFacts()
-			dels := p.Find(func(ev *Event) bool { return ev.Kind == EvEnter && isCall(ev, "Keeper).DeleteOutputProposal") })
-			for k, i := range dels {
-				o.Sites++
-				a := p.Events[i].Call.Args
-				// index of the k-th deletion = req.OutputIndex + k, compared as linear forms so that
-				// `i := idx; i < next; i++` and `off := 0; off < next-idx; off++ ... idx+off` are one shape
-				wantIdx := fmt.Sprintf("req.OutputIndex + %d", k)
-				wantLin := linForm{c: int64(k), k: map[string]int64{"req.OutputIndex": 1}}
-				if a[2].Key() != "req.BridgeId" || !lin(a[3]).equal(wantLin) {
-					o.Fail(c.evPos(&p.Events[i]), fmt.Sprintf("deletion #%d removes (%s, %s), want (req.BridgeId, %s)", k, a[2].Key(), a[3].Key(), wantIdx), c.Dump(p, i))
-				}
-				nx := nextOf(p)
-				if nx == nil {
-					o.Fail(c.evPos(&p.Events[i]), "deletion before the next index was loaded", c.Dump(p, i))
-					continue
-				}
-				rel, nf := p.RelationLin(i, a[3], nx)
-				if nf == 0 || rel != rLT {
-					o.Fail(c.evPos(&p.Events[i]), fmt.Sprintf("deletion #%d of index %s not guarded by index < next (relation %s)", k, wantIdx, relString(rel)), c.Dump(p, i))
-				}
-			}
-			if !p.OK() || p.Panic {
-				continue
-			}
-			nOK++
-			nx := nextOf(p)
-			if nx == nil || len(dels) == 0 {
-				o.Fail(c.W.Pos(fn.Pos()), "success without loading the next index or without deleting anything", c.Dump(p, -1))
-				continue
-			}
-			// loop exit: req.OutputIndex + m is not < next
-			exitT := mk("bin", "+", p.Events[dels[0]].Call.Args[3], intTerm(int64(len(dels))))
-			rel, nf := p.RelationLin(len(p.Events), exitT, nx)
-			if nf == 0 || rel&rLT != 0 {
-				o.Fail(c.W.Pos(fn.Pos()), "loop can exit before reaching the next index (suffix not fully deleted)", c.Dump(p, -1))
-			}
-			// every deleter error aborts
-			for _, i := range p.Find(func(ev *Event) bool { return ev.Kind == EvExit && isCall2(ev, "Keeper).DeleteOutputProposal") }) {
-				if r := p.Events[i].Res; !r.IsNil() && !p.factIs(len(p.Events), "("+r.String()+" == nil)", true) {
-					o.Fail(c.W.Pos(fn.Pos()), "DeleteOutputProposal error does not abort the message", c.Dump(p, -1))
-				}
-			}
-			sets := collEvents(p, len(p.Events), "NextOutputIndexes", "Set")
-			if len(sets) != 1 || p.Events[sets[0]].Call.Args[2].Key() != "req.BridgeId" || p.Events[sets[0]].Call.Args[3].Key() != "req.OutputIndex" {
-				o.Fail(c.W.Pos(fn.Pos()), "counter not rolled back to exactly req.OutputIndex under req.BridgeId", c.Dump(p, -1))
-			} else if len(dels) > 0 && sets[0] < dels[len(dels)-1] {
-				o.Fail(c.W.Pos(fn.Pos()), "counter rolled back before the deletions finished", c.Dump(p, -1))
-			}
-		}
-		if nOK == 0 {
-			o.Fail(c.W.Pos(fn.Pos()), "no success path within the unrolling bound", nil)
-		}
-	})
+	c.Rule("C11.R2", func() { deleteOutputRule(c, "C11.R2") })
+	c.Rule("C11.R7", func() { oneFinalityClock(c, "C11.R7") })
 
 	// independence between bridges: every enumeration of the output log is confined to ONE
 	// bridge's prefix - the range is NewPrefixedPairRange(<a bridge id parameter>), possibly
@@ -1031,4 +1001,77 @@ var _ *ssa.Function
 
 func isNextOutputIndexKey(k string) bool {
 	return k == "strconv.FormatUint(1, 10)" || k == "strconv.FormatUint((collections.Map[K, V]).Get(ms.Keeper.NextOutputIndexes, ctx, req.BridgeId).0, 10)"
+}
+
+// deleteOutputRule: the DeleteOutput handler removes exactly the suffix [req.OutputIndex, next)
+// of the ADDRESSED bridge and rolls that bridge's counter - no other key - back to
+// req.OutputIndex (C11: suffix-only deletion; C05: a deletion can never move another bridge's
+// cursor under its final outputs).
+func deleteOutputRule(c *Ctx, id string) {
+		fn := hostHandler(c, "DeleteOutput")
+		o := c.Ob(id, "DeleteOutput: guard index < next; deletes the contiguous suffix from req.OutputIndex; rolls the counter back to req.OutputIndex")
+		nOK := 0
+		nextOf := func(p *Path) *Term {
+			for _, i := range p.Find(func(ev *Event) bool { return ev.Kind == EvExit && isCall2(ev, "Keeper).GetNextOutputIndex") }) {
+				if r := p.Events[i].Res; r.Op == "tuple" {
+					return r.Args[0]
+				}
+			}
+			return nil
+		}
+		for _, p := range c.Paths(fn, PO{Params: hParams, NoInline: []string{".Validate"}, Visits: 4}) {
+			o.Paths++
+			o.Facts += p.NFacts()
+			dels := p.Find(func(ev *Event) bool { return ev.Kind == EvEnter && isCall(ev, "Keeper).DeleteOutputProposal") })
+			for k, i := range dels {
+				o.Sites++
+				a := p.Events[i].Call.Args
+				// index of the k-th deletion = req.OutputIndex + k, compared as linear forms so that
+				// `i := idx; i < next; i++` and `off := 0; off < next-idx; off++ ... idx+off` are one shape
+				wantIdx := fmt.Sprintf("req.OutputIndex + %d", k)
+				wantLin := linForm{c: int64(k), k: map[string]int64{"req.OutputIndex": 1}}
+				if a[2].Key() != "req.BridgeId" || !lin(a[3]).equal(wantLin) {
+					o.Fail(c.evPos(&p.Events[i]), fmt.Sprintf("deletion #%d removes (%s, %s), want (req.BridgeId, %s)", k, a[2].Key(), a[3].Key(), wantIdx), c.Dump(p, i))
+				}
+				nx := nextOf(p)
+				if nx == nil {
+					o.Fail(c.evPos(&p.Events[i]), "deletion before the next index was loaded", c.Dump(p, i))
+					continue
+				}
+				rel, nf := p.RelationLin(i, a[3], nx)
+				if nf == 0 || rel != rLT {
+					o.Fail(c.evPos(&p.Events[i]), fmt.Sprintf("deletion #%d of index %s not guarded by index < next (relation %s)", k, wantIdx, relString(rel)), c.Dump(p, i))
+				}
+			}
+			if !p.OK() || p.Panic {
+				continue
+			}
+			nOK++
+			nx := nextOf(p)
+			if nx == nil || len(dels) == 0 {
+				o.Fail(c.W.Pos(fn.Pos()), "success without loading the next index or without deleting anything", c.Dump(p, -1))
+				continue
+			}
+			// loop exit: req.OutputIndex + m is not < next
+			exitT := mk("bin", "+", p.Events[dels[0]].Call.Args[3], intTerm(int64(len(dels))))
+			rel, nf := p.RelationLin(len(p.Events), exitT, nx)
+			if nf == 0 || rel&rLT != 0 {
+				o.Fail(c.W.Pos(fn.Pos()), "loop can exit before reaching the next index (suffix not fully deleted)", c.Dump(p, -1))
+			}
+			// every deleter error aborts
+			for _, i := range p.Find(func(ev *Event) bool { return ev.Kind == EvExit && isCall2(ev, "Keeper).DeleteOutputProposal") }) {
+				if r := p.Events[i].Res; !r.IsNil() && !p.factIs(len(p.Events), "("+r.String()+" == nil)", true) {
+					o.Fail(c.W.Pos(fn.Pos()), "DeleteOutputProposal error does not abort the message", c.Dump(p, -1))
+				}
+			}
+			sets := collEvents(p, len(p.Events), "NextOutputIndexes", "Set")
+			if len(sets) != 1 || p.Events[sets[0]].Call.Args[2].Key() != "req.BridgeId" || p.Events[sets[0]].Call.Args[3].Key() != "req.OutputIndex" {
+				o.Fail(c.W.Pos(fn.Pos()), "counter not rolled back to exactly req.OutputIndex under req.BridgeId", c.Dump(p, -1))
+			} else if len(dels) > 0 && sets[0] < dels[len(dels)-1] {
+				o.Fail(c.W.Pos(fn.Pos()), "counter rolled back before the deletions finished", c.Dump(p, -1))
+			}
+		}
+		if nOK == 0 {
+			o.Fail(c.W.Pos(fn.Pos()), "no success path within the unrolling bound", nil)
+		}
 }
